@@ -355,7 +355,9 @@ namespace {
   X((Route<F::SPATIAL_MODULI, F::C_TAU_JAUMANN, F::SPATIAL_MODULI>), (Route<F::SPATIAL_MODULI>))     \
   X((Route<F::DSIG_DF, F::DPK1_DF, F::DSIG_DF>), (Route<F::DSIG_DF>))                                \
   X((Route<F::DPK1_DF, F::DSIG_DF, F::DPK1_DF>), (Route<F::DPK1_DF>))                                \
-  X((Route<F::DS_DEGL, F::DPK1_DF, F::DTAU_DF, F::SPATIAL_MODULI, F::DS_DEGL>), (Route<F::DS_DEGL>))
+  X((Route<F::DS_DEGL, F::DPK1_DF, F::DTAU_DF, F::SPATIAL_MODULI, F::DS_DEGL>), (Route<F::DS_DEGL>))      \
+  /* last one: goes through (DS_DF, DS_DEGL); only drawn when its known defect is not listed */   \
+  X((Route<F::DS_DEGL, F::SPATIAL_MODULI, F::DTAU_DF>), (Route<F::DS_DEGL, F::DS_DF, F::DTAU_DF>))
 
   template <unsigned short N>
   void composeBody(verif::Case& c) {
@@ -364,7 +366,10 @@ namespace {
         C23_ROUTES(C23_COUNT)
 #undef C23_COUNT
         ;
-    const int p = static_cast<int>(c.pick(nroutes, "route"));
+    int p = static_cast<int>(c.pick(nroutes, "route"));
+    // while convert<DS_DF,DS_DEGL> is a listed known defect (factor 4), the route through it is
+    // replaced by the one through DS_DC (index 14); it is asserted as soon as the key is not known
+    if (p == nroutes - 1 && verif::Global::get().known_keys.count("C23.convert.DS_DF_from_DS_DEGL")) p = 14;
     const auto s = setup<N>(c);
     int n = 0;
 #define C23_CASE(A, B)                  \
